@@ -47,7 +47,7 @@ def truth_sessions(sc, tr, t):
         e = delivered.get(s["session_id"], 0.0) if s["arrival"] < t else 0.0
         rem = s["energy"] - e
         V = st[s["station"]]["voltage"]
-        out.append(dict(session_id=s["session_id"], station=s["station"], i=idx[s["station"]], arrival=s["arrival"],
+        out.append(dict(session_id=s["session_id"], station=s["station"], i=idx[s["station"]], arrival=s.get("ev_arrival", s["arrival"]),
                         departure=s["departure"], est_departure=s.get("est_departure", s["departure"]), remaining=rem,
                         rem_ap=rem * 1000.0 / V * 60.0 / period, max_pilot=max_pilot(st[s["station"]]["evse"]),
                         min_pilot=min_pilot(st[s["station"]]["evse"]), voltage=V, evse=st[s["station"]]["evse"]))
